@@ -93,6 +93,46 @@ def ob_mismatch(n_obj, n_w, dname):
     return f
 
 
+def ob_reuse(first, second):
+    """the property holds for every run, also a later run of a reused instance on another task: run 1 on task A,
+    run 2 on task B (other direction / weights / objective count), every agent reported by run 2 is checked.
+    first/second = (direction, n_objectives, weights: 'sym' | tuple of concrete weights | None)"""
+    def f():
+        with env(allow_seed=True):
+            opt = Scripted(M.BaseOptimizationConfig(population_size=1, fitness_error=None, max_cycles=1))
+            last = None
+            for tag, (dname, k, wspec) in (("a", first), ("b", second)):
+                F = {}
+
+                def obj(x, i, F=F, tag=tag, k=k, wspec=wspec):
+                    if i not in F:
+                        F[i] = [sym.real(f"{tag}.F{i}.{j}") for j in range(k)]
+                    return list(F[i]) if wspec is not None else F[i][0]
+                w = None if wspec is None else ([sym.real(f"{tag}.w{j}", lo=0.0) for j in range(k)] if wspec == "sym"
+                                                else list(wspec))
+                t = make_task([cont()], obj, minmax=DIRS[dname], weights=w)
+                cands = [sym.real(f"{tag}.x{g}", lo=-1.0, hi=2.0) for g in range(2)]
+                opt.init_fn = lambda o, c=cands: [o._init_agent([c[0]])]
+                opt.step_fn = lambda o, n, c=cands: setattr(o, "_population", [o._init_agent([c[1]])])
+                last = (opt.optimize(t), t, F, w, DIRS[dname])
+            res, t, F, w, direction = last
+            log = t.data["log"]
+            for g in res.evolution:
+                for a in g.agents:
+                    ok = False
+                    for i, arg in enumerate(log):
+                        if arg != a.position:
+                            continue
+                        uc = F[i][0] if w is None else sum(f * wi for f, wi in zip(F[i], w))
+                        if a.cost == uc and a.fitness == fitness_of(uc):
+                            ok = True
+                    if not ok:
+                        return Failure("agent-of-a-later-run-does-not-carry-the-objective-of-its-position",
+                                       position=a.position, cost=a.cost, weights=w)
+            return OK
+    return f
+
+
 def twin():
     def f():
         with env():
@@ -123,5 +163,10 @@ def obligations(tier):
     for cname in init_agent_overrides():
         for d in ("min", "max"):
             obs.append(Ob(f"override[{cname},{d}]", ob_cost(("C", "D3"), cname, d, 1, "none"), 200))
+    for first, second in ((("max", 2, "sym"), ("min", 2, "sym")), (("min", 2, (0.9, 0.1)), ("min", 2, (0.2, 0.8))),
+                          (("min", 2, (0.5, 0.5)), ("max", 1, None)), (("max", 1, None), ("min", 2, (1.0, 0.0))),
+                          (("min", 3, (1.0, 2.0, 3.0)), ("min", 2, (0.2, 0.8)))):
+        name = f"reuse[{first[0]}/{first[1]}/{first[2]}->{second[0]}/{second[1]}/{second[2]}]".replace(" ", "")
+        obs.append(Ob(name, ob_reuse(first, second), 900))
     obs.append(Ob("twin_vacuity", twin(), 30, expect_refuted=True))
     return obs
